@@ -127,6 +127,8 @@ def is_rising(bins: ArrayLike) -> bool:
     """
     # TODO: Optimize for numpy bins
     bins = make_bin_array(bins)
+    if np.any(np.isnan(bins)):
+        return False
     if np.any(bins[:, 0] >= bins[:, 1]):
         return False
     if np.any(bins[1:, 0] < bins[:-1, 1]):
